@@ -391,6 +391,14 @@ func (bldr *BundleBuilder) HopCountBlock(args ...interface{}) *BundleBuilder {
 //   where Data is the payload's data and
 //   BlockControlFlags are _optional_ block processing control flags
 func (bldr *BundleBuilder) PayloadBlock(args ...interface{}) *BundleBuilder {
+	if len(args) == 0 || args[0] == nil {
+		// binary.Write panics for a nil value, e.g., a JSON null passed through BuildFromMap.
+		if bldr.err == nil {
+			bldr.err = fmt.Errorf("PayloadBlock requires some payload data, not nil")
+		}
+		return bldr
+	}
+
 	var buf bytes.Buffer
 	if err := binary.Write(&buf, binary.LittleEndian, args[0]); err != nil {
 		bldr.err = err
